@@ -8,6 +8,7 @@ package compact
 import (
 	"context"
 	"fmt"
+	"math"
 	"os"
 	"strings"
 	"testing"
@@ -42,6 +43,19 @@ func TestGovcReplay(t *testing.T) {
 		after := time.Now().UnixMilli()
 		if ok, _ := bkt.Exists(context.Background(), id.String()+"/deletion-mark.json"); ok && after-(maxTime-1) <= retention.Milliseconds() {
 			msgs = append(msgs, fmt.Sprintf("block with MaxTime %d marked for deletion although its newest sample is only %d ms old (retention %d ms)", maxTime, after-(maxTime-1), retention.Milliseconds()))
+		}
+	}
+	// open-ended blocks: MaxTime at or near the int64 limit is far in the future, never past retention
+	for k, maxTime := range []int64{math.MaxInt64, math.MaxInt64 - 1000, math.MaxInt64 - retention.Milliseconds() + 1, math.MaxInt64 - retention.Milliseconds() - 5} {
+		bkt := objstore.NewInMemBucket()
+		id := ulid.MustNew(uint64(k+1), nil)
+		metas := map[ulid.ULID]*metadata.Meta{id: {BlockMeta: tsdb.BlockMeta{ULID: id, MinTime: 0, MaxTime: maxTime}}}
+		ctr := prometheus.NewCounter(prometheus.CounterOpts{Name: "x"})
+		if err := ApplyRetentionPolicyByResolution(context.Background(), log.NewNopLogger(), bkt, metas, map[ResolutionLevel]time.Duration{ResolutionLevelRaw: retention}, ctr); err != nil {
+			continue
+		}
+		if ok, _ := bkt.Exists(context.Background(), id.String()+"/deletion-mark.json"); ok {
+			msgs = append(msgs, fmt.Sprintf("block with MaxTime %d (newest sample far in the future) marked for deletion under a retention of %d ms", maxTime, retention.Milliseconds()))
 		}
 	}
 	if len(msgs) > 0 {
